@@ -23,7 +23,13 @@ Definition apply_order (order : list (list nat)) (g : graph) : option graph :=
 (* Process of phase 3 with the heuristic as an oracle *)
 Definition phase3 (wmedian : bool) (order : list (list nat)) (g : graph) : res graph :=
   if Nat.eqb (length (g_N g)) 1 then Ok g else
-  if negb wmedian then Ok g else
+  if negb wmedian then
+    (* OrderingNoop: the order of the layering is kept, long edges are broken, positions numbered *)
+    do g <- (if Nat.ltb 1 (length (g_L g)) then break_long_edges g else Ok g);
+    Ok (fold_left (fun g l =>
+          fst (fold_left (fun (acc : graph * Z) n => (upd_node (fst acc) n (set_pos (snd acc)), (snd acc + 1)%Z))
+                         (l_nodes l) (g, 0%Z))) (g_L g) g)
+  else
   if Nat.eqb (length (g_L g)) 1 then Ok g else
   do g <- break_long_edges g;
   match apply_order order g with
